@@ -110,7 +110,7 @@ def gen_ops(rng, depth, budget):
                 ops.append(['for', rng.choice(VARS + [None]) if rng.random() < 0.1 else rng.choice(VARS),
                             rng.choice([None, 0]) if rng.random() < 0.08 else rng.choice([1, 2, 3]), body])
             else:
-                ops.append(['axis_rotation', rng.choice([None, 10.0, 370.5, 360.0]), body])
+                ops.append(['axis_rotation', rng.choice([None, 10.0, 370.5, 360.0, 0, 0.0]), body])
         else:
             ops.append(gen_leaf(rng))
     return ops
